@@ -169,6 +169,8 @@ def evaluate(case):
             except Exception as ex:  # noqa: BLE001
                 fails.append(f"reading the file back raises {type(ex).__name__}: {ex}")
         if case["kind"] == "reingest":
+            import stogcases as _sc
+            _sc.decoy_instances()
             st2 = StoG()
             with contextlib.redirect_stdout(io.StringIO()):
                 try:
